@@ -516,6 +516,8 @@ use std::sync::{Arc, Mutex};
 
 pub struct LoopShared {
     pub writes: VecDeque<Wr>,
+    /// what the server has sent and the client has not read yet: one chunk per read call
+    pub reads: VecDeque<Vec<u8>>,
     pub written: Vec<u8>,
     /// interest of every (re)registration of the socket: 1 readable, 2 writable, 3 both
     pub interests: Vec<u8>,
@@ -527,8 +529,19 @@ pub struct LoopStream {
 }
 
 impl Read for LoopStream {
-    fn read(&mut self, _: &mut [u8]) -> io::Result<usize> {
-        Err(io::Error::new(io::ErrorKind::WouldBlock, ""))
+    fn read(&mut self, buf: &mut [u8]) -> io::Result<usize> {
+        let mut sh = self.shared.lock().unwrap();
+        match sh.reads.pop_front() {
+            Some(chunk) => {
+                let n = chunk.len().min(buf.len());
+                buf[..n].copy_from_slice(&chunk[..n]);
+                if n < chunk.len() {
+                    sh.reads.push_front(chunk[n..].to_vec());
+                }
+                Ok(n)
+            }
+            None => Err(io::Error::new(io::ErrorKind::WouldBlock, "")),
+        }
     }
 }
 
@@ -649,6 +662,10 @@ impl LoopClient {
             .kick
             .set_readiness(Ready::readable() | Ready::writable());
     }
+    /// bytes from the server, read by the next socket event
+    pub fn push_read(&mut self, bytes: Vec<u8>) {
+        self.shared.lock().unwrap().reads.push_back(bytes);
+    }
     /// what the transport does with the next write calls (then: would block)
     pub fn script_writes(&mut self, w: Vec<Wr>) {
         self.shared.lock().unwrap().writes = w.into_iter().collect();
@@ -687,6 +704,7 @@ pub fn run_loop(
     io.connection_timeout = Some(std::time::Duration::from_secs(3));
     let shared = Arc::new(Mutex::new(LoopShared {
         writes: VecDeque::new(),
+        reads: VecDeque::new(),
         written: Vec::new(),
         interests: Vec::new(),
     }));
